@@ -246,7 +246,8 @@ fn outcomes_match(exp: &J, got: &[reval::ruleset::Outcome], rules: &[Rule]) -> R
             return Err(format!("outcome {} carries rule {:?}, expected {:?}", i + 1, g.rule.name(), name));
         }
         if let Some(r) = rules.get(i) {
-            if g.rule != r {
+            // compared through the model projection (PartialEq would reject a rule containing a NaN literal)
+            if g.rule.name() != r.name() || expr_to_model(g.rule.expr()) != expr_to_model(r.expr()) || g.rule.iter_metadata().count() != r.iter_metadata().count() {
                 return Err(format!("outcome {} carries a rule different from the {}-th rule added", i + 1, i + 1));
             }
         }
